@@ -60,6 +60,51 @@ claim('C17', 'proof',
       'stated threshold assumption; every builder is linear in its coefficient (scale, add per face) and separable per face on the fully '
       'symbolic field (the lemma the face-basis checks rely on). Known finding: _fsign absolute threshold.',
       'DESIGN.md 2/C17')
+
+claim('C02', 'proof',
+      'Bounded proof of the consistency/exactness form: every interior row of the system the real solvePDE assembles for transient + central '
+      'convection + diffusion + linear + constant source equals, for exact samples of an affine (non-uniform faces) or quadratic (uniform spacing '
+      'h symbolic) manufactured solution with symbolic coefficients, the reference finite-volume balance built from an independent geometry '
+      'oracle and the exact p, dp/dn at face centres - pinning every metric factor, sign and coefficient placement - and every boundary row is '
+      'the Robin relation at the face (second-order remainders +-b c2 h^2/4, u c2 h^2/4 proved as identities). The asymptotic refinement claim '
+      'itself is outside reach and stated so.',
+      'DESIGN.md 2/C02')
+claim('C07', 'proof',
+      'Bounded proof: the rows the real solvePDE assembles for transient + diffusion(D>=0) + upwind + sink have non-positive off-diagonals, row sum '
+      'alpha/dt + beta + div(u), RHS alpha old/dt and ghost rows of Dirichlet / no-flux / periodic shape on all 9 grid classes (S1-S4); a '
+      'code-independent M-matrix lemma (all neighbour-kind splits, k = 2,4,6) and an abstract chain composition (n <= 4/6) give x within the '
+      'range of old values, Dirichlet data (and 0 with a sink).',
+      'DESIGN.md 2/C07')
+claim('C08', 'proof',
+      'Bounded proof in residual-transfer form: rows of the high-dimensional / permuted / mirrored / shifted system evaluated at the lift of the '
+      'low unknowns equal the low rows (extra rows vanish), through the real solvePDE, for every embedding pair, axis permutation, mirror and '
+      'periodic shift, incl. TVD where argument terms are structurally identical. Known finding: upwind is not shift invariant on periodic axes.',
+      'DESIGN.md 2/C08')
+claim('C09', 'model_checking',
+      'Bounded-exhaustive exploration of edit/solve histories (21 operations; all written values are fresh symbols, so each history is decided '
+      'for all values): after every history the system captured from the real solvePDE / the result of solveExplicitPDE is compared entry by entry '
+      'with that of a variable freshly constructed from the visible state. Known finding: shared BC object.',
+      'DESIGN.md 2/C09')
+claim('C14', 'proof',
+      'Bounded proof on terms: every operator / reflected operator / funceval / celleval / faceeval result equals the elementwise oracle on the '
+      'operand symbols (wrong operand order or a non-elementwise result changes the term), operands are unchanged (term and object identity), '
+      'results carry a deep copy of the left-most operand BCs with a consistent ghost layer, and results and operands are mutually independent '
+      '(shares_memory + write probes).',
+      'DESIGN.md 2/C14')
+claim('C15', 'proof',
+      'Bounded proof on terms: every public builder leaves grid, coefficient variables, solution variable and cached BC term untouched (object ids, '
+      'element terms, dirty flags), two calls give identical terms (functional determinism for all inputs under the real-arithmetic model), '
+      'returned arrays neither share memory with nor write through to grid/input storage; solvePDE changes only its variable and terms are '
+      'reusable; solveMatrixPDE / solveExplicitPDE change nothing they are given.',
+      'DESIGN.md 2/C15')
+claim('C16', 'exploration',
+      'Exhaustive enumeration (finite request space, exhaustive: true) through the real constructors and properties: coordinate and component '
+      'labels (get and set), periodic flags on every subset of sides, initial-value shape families, constructor arities 0..7 in both argument '
+      'styles, non-array BC coefficients and 10 non-term objects raise exactly the documented exception type; every documented form, label and '
+      'term kind is accepted for N in {1,2,3} per axis.',
+      'DESIGN.md 2/C16',
+      tech='exhaustive enumeration of the finite request space through the real API (degenerate use of the technique: no arithmetic to '
+           'encode; every case is one concrete path with its expected outcome from a table derived from the coordinate systems)')
 _todo = 'check under construction in this session (engine present; obligation family not landed yet)'
 for _p in ['C01','C02','C03','C04','C05','C06','C07','C08','C09','C11','C12','C13','C14','C15','C16','C17']:
     if _p not in CHECKS:
